@@ -181,10 +181,11 @@ def decl_arg(name, vtype, value, kind, salt=0, cx=False):
 # operations
 # ------------------------------------------------------------------------------------------------
 class Op:
-    def __init__(self, name, includes, args, call, rep, post='k9::norm(r)', level='index'):
+    def __init__(self, name, includes, args, call, rep, post='k9::norm(r)', level='index', rep_bad=()):
         self.name = name; self.includes = includes; self.args = args      # args: [(name, vtype)]
         self.call = call; self.post = post; self.level = level
         self.rep = rep                                                    # representative requests used for pinning
+        self.rep_bad = list(rep_bad)                                      # representative REFUSED requests (pinned apart)
 
 
 IX = 'nmtools/array/index/'
@@ -201,6 +202,34 @@ _op('compute_offset', [IX + 'compute_offset.hpp'], [('indices', 'L'), ('strides'
     [[[1, 2, 3], [12, 4, 1]]])
 _op('compute_indices', [IX + 'compute_indices.hpp'], [('offset', 'n'), ('shape', 'L')], 'ix::compute_indices(offset,shape)',
     [[23, [2, 3, 4]]])
+_op('shape_reshape', [IX + 'reshape.hpp'], [('shape', 'L'), ('newshape', 'I')], 'ix::shape_reshape(shape,newshape)',
+    [[[2, 3, 4], [4, -1]]], rep_bad=[[[2, 3, 4], [5, -1]]])
+_op('shape_transpose', [IX + 'transpose.hpp'], [('shape', 'L'), ('axes', 'I')], 'ix::shape_transpose(shape,axes)',
+    [[[2, 3, 4], [2, 0, 1]], [[2, 3, 4], None]])
+_op('broadcast_shape', [IX + 'broadcast_shape.hpp'], [('a', 'L'), ('b', 'L')], 'ix::broadcast_shape(a,b)',
+    [[[2, 1, 4], [3, 1]]], rep_bad=[[[2, 3, 4], [2, 1]]])
+_op('broadcast_shape3', [IX + 'broadcast_shape.hpp'], [('a', 'L'), ('b', 'L'), ('c', 'L')], 'ix::broadcast_shape(a,b,c)',
+    [[[2, 1, 4], [3, 1], [1]]], rep_bad=[[[2, 1, 4], [3, 1], [5]]])
+_op('shape_broadcast_to', [IX + 'broadcast_to.hpp'], [('ashape', 'L'), ('bshape', 'L')], 'ix::shape_broadcast_to(ashape,bshape)',
+    [[[3, 1], [2, 3, 4]]], rep_bad=[[[3, 2], [2, 3, 4]]])
+_op('shape_tile', [IX + 'tile.hpp'], [('shape', 'L'), ('reps', 'L')], 'ix::shape_tile(shape,reps)',
+    [[[2, 3], [2, 1, 2]]])
+_op('shape_repeat', [IX + 'repeat.hpp'], [('shape', 'L'), ('repeats', 'n'), ('axis', 'i')], 'ix::shape_repeat(shape,repeats,axis)',
+    [[[2, 3], 2, 1], [[2, 3], 2, None]])
+_op('shape_repeat_l', [IX + 'repeat.hpp'], [('shape', 'L'), ('repeats', 'L'), ('axis', 'i')], 'ix::shape_repeat(shape,repeats,axis)',
+    [[[2, 3], [1, 2, 3], 1]])
+_op('remove_dims', [IX + 'remove_dims.hpp'], [('shape', 'L'), ('axis', 'I'), ('keepdims', 'b')], 'ix::remove_dims(shape,axis,keepdims)',
+    [[[2, 3, 4], [0, 2], False], [[2, 3, 4], [1], True], [[2, 3, 4], None, False]])
+_op('remove_dims_s', [IX + 'remove_dims.hpp'], [('shape', 'L'), ('axis', 'i'), ('keepdims', 'b')], 'ix::remove_dims(shape,axis,keepdims)',
+    [[[2, 3, 4], 1, False], [[2, 3, 4], -1, True]])
+_op('normalize_axis', [IX + 'normalize_axis.hpp'], [('axis', 'I'), ('ndim', 'n')], 'ix::normalize_axis(axis,ndim)',
+    [[[-1, 0], 3]], rep_bad=[[[3, 0], 3]])
+_op('normalize_axis_s', [IX + 'normalize_axis.hpp'], [('axis', 'i'), ('ndim', 'n')], 'ix::normalize_axis(axis,ndim)',
+    [[-1, 3]], rep_bad=[[3, 3], [-4, 3]])
+_op('shape_concatenate', [IX + 'concatenate.hpp'], [('ashape', 'L'), ('bshape', 'L'), ('axis', 'i')], 'ix::shape_concatenate(ashape,bshape,axis)',
+    [[[2, 3], [4, 3], 0], [[2, 3], [4, 3], None]], post='k9::norm_flagged(r)', rep_bad=[[[2, 3], [4, 2], 0]])
+_op('shape_pad', [IX + 'pad.hpp'], [('shape', 'L'), ('pad_width', 'L')], 'ix::shape_pad(shape,pad_width)',
+    [[[2, 3], [0, 2, 1, 0]]], rep_bad=[[[2, 3], [0, 2, 1]]])
 
 
 def sig(op, kinds, mode='rt'):
@@ -244,9 +273,18 @@ def fmtv(v):
     return str(int(v))
 
 
-def emit_case(c, fname):
+def knows_at_compile_time(c):
+    """the refusal of this case can surface as a compile error: constexpr evaluation, or a constant argument"""
+    return c.mode == 'cx' or any(k == 'ct' for k in c.kinds)
+
+
+def emit_case(c, fname, stub=False):
     o = OPS[c.op]
     cx = c.mode == 'cx'
+    if stub:
+        # this case does not compile against the tree under test (see compile-error cache); keep the id answerable
+        return 'static std::string %s() {   // %s\n    return "%s";\n}' % (
+            fname, c.text(), 'compile-error:ct' if knows_at_compile_time(c) else 'compile-error')
     lines = ['static std::string %s() {   // %s' % (fname, c.text())]
     for j, ((an, vt), v, k) in enumerate(zip(o.args, c.vals, c.kinds)):
         for l in decl_arg(an, vt, v, k, salt=c.salt + 5 * j, cx=cx):
@@ -257,8 +295,8 @@ def emit_case(c, fname):
     return '\n'.join(lines)
 
 
-def emit_tu(cases, build):
-    """C++ source of a TU answering `k9 id=<key> ...` for the given cases"""
+def emit_tu(cases, build, stubs=()):
+    """C++ source of a TU answering `k9 id=<key> ...` for the given cases; `stubs` = keys of cases known not to compile"""
     stl = BUILDS[build]['stl']
     incs = []
     for c in cases:
@@ -283,7 +321,7 @@ def emit_tu(cases, build):
     for j, c in enumerate(cases):
         fn = 'c%d_%s' % (j, c.key)
         names.append(fn)
-        out.append(emit_case(c, fn))
+        out.append(emit_case(c, fn, stub=(c.key in stubs)))
     out.append('using fn_t = std::string(*)();')
     out.append('static const std::map<std::string, fn_t>& table() {')
     out.append('    static const std::map<std::string, fn_t> t = {')
@@ -301,10 +339,10 @@ def emit_tu(cases, build):
     return '\n'.join(out) + '\n'
 
 
-def write_tu(name, cases, build):
+def write_tu(name, cases, build, stubs=()):
     os.makedirs(GEN_DIR, exist_ok=True)
     p = os.path.join(GEN_DIR, name + '.cpp')
-    src = emit_tu(cases, build)
+    src = emit_tu(cases, build, stubs)
     if not (os.path.exists(p) and open(p).read() == src):
         with open(p, 'w') as f:
             f.write(src)
@@ -426,31 +464,39 @@ def probe(cases, build, tag, repo=None, max_rounds=12):
 # ------------------------------------------------------------------------------------------------
 # pinning
 # ------------------------------------------------------------------------------------------------
+def pin_reps(op, reps, build, repo, tag):
+    sup, unsup = set(), {}
+    for ri, vals in enumerate(reps):
+        cs = []
+        for k in all_assignments(op, vals, build):
+            cs.append(KCase(op, vals, k, 'rt', salt=1))
+            if cx_ok(op, vals, k):
+                cs.append(KCase(op, vals, k, 'cx', salt=1))
+        for j in range(0, len(cs), 400):     # big groups make the compiler slow: chunk
+            chunk = cs[j:j + 400]
+            ok, bad = probe(chunk, build, '%s_%s%d_%d' % (op, tag, ri, j), repo=repo)
+            for c in chunk:
+                if c.key in bad:
+                    unsup[c.sig()] = bad[c.key]
+                else:
+                    sup.add(c.sig())
+    for s_ in list(unsup):
+        sup.discard(s_)          # compiles for one representative only: treat as unsupported
+    return sup, unsup
+
+
 def pin_build(build, ops=None, repo=None):
     res = {}
     for op in (ops or list(OPS)):
         o = OPS[op]
-        sup, unsup = set(), {}
-        for ri, vals in enumerate(o.rep):
-            cs = []
-            for k in all_assignments(op, vals, build):
-                cs.append(KCase(op, vals, k, 'rt', salt=1))
-                if cx_ok(op, vals, k):
-                    cs.append(KCase(op, vals, k, 'cx', salt=1))
-            # big groups make the compiler slow: chunk
-            for j in range(0, len(cs), 400):
-                chunk = cs[j:j + 400]
-                ok, bad = probe(chunk, build, '%s_%d_%d' % (op, ri, j), repo=repo)
-                for c in chunk:
-                    if c.key in bad:
-                        unsup[c.sig()] = bad[c.key]
-                    else:
-                        sup.add(c.sig())
-        for s_ in list(unsup):
-            if s_ in sup:
-                sup.discard(s_)          # compiles for one representative only: treat as unsupported
+        sup, unsup = pin_reps(op, o.rep, build, repo, 'ok')
         res[op] = {'supported': sorted(sup), 'unsupported': {k: unsup[k] for k in sorted(unsup)}}
-        sys.stderr.write('%s %s: supported %d unsupported %d\n' % (build, op, len(sup), len(unsup)))
+        if o.rep_bad:
+            bsup, bunsup = pin_reps(op, o.rep_bad, build, repo, 'bad')
+            res[op]['supported_refusal'] = sorted(bsup)
+            res[op]['unsupported_refusal'] = {k: bunsup[k] for k in sorted(bunsup)}
+        sys.stderr.write('%s %s: supported %d unsupported %d refusal-supported %d\n' % (
+            build, op, len(sup), len(unsup), len(res[op].get('supported_refusal', []))))
     return res
 
 
